@@ -57,7 +57,7 @@ func EvaluateSelect(q sql.Select, rm RelationManager) ([]*storage.Row, []*storag
 		return nil, nil, err
 	}
 
-	err = sortColumns(q.SortSpecificationList, fields, rows)
+	err = sortColumns(q.SortSpecificationList, sortFields(q.SelectList, fields), rows)
 	if err != nil {
 		return nil, nil, err
 	}
@@ -439,6 +439,24 @@ func emptyAggregateRow(selectList sql.SelectList, rows []*storage.Row) ([]*stora
 
 	}
 	return []*storage.Row{row}, nil
+}
+
+// sortFields returns the header a sort key is resolved against: an alias is an
+// output name, not a column of its table, so that a qualified key (t.b) does
+// not find the alias b of another column.
+func sortFields(selectList sql.SelectList, qfields storage.Fields) storage.Fields {
+	if len(selectList) != len(qfields) {
+		// select *
+		return qfields
+	}
+	fields := make(storage.Fields, len(qfields))
+	for i, f := range qfields {
+		fields[i] = f
+		if selectList[i].AsClause != "" {
+			fields[i] = &storage.Field{Column: f.Column}
+		}
+	}
+	return fields
 }
 
 func sortColumns(ssl []sql.SortSpecification, qfields storage.Fields, rows []*storage.Row) error {
